@@ -327,14 +327,15 @@ func runLock(o *opts) {
 					}
 				}
 				logf := filepath.Join(base, "trace.log")
-				a := append([]string{"--log", logf, "--", p.Dud}, args...)
+				a := append([]string{"--reads", "--log", logf, "--", p.Dud}, args...)
 				cmd := exec.Command(sysmonBin(), a...)
 				cmd.Dir = filepath.Join(p.Root, cwd)
 				cmd.Env = append([]string{}, p.Env...)
 				err := cmd.Run()
 				exit0 := err == nil
 				// events: 0 = .dud/lock created with O_EXCL, 1 = .dud/lock unlinked, 2 = any other
-				// mutating call below the project, its cache or the remote (runs of 2 are collapsed)
+				// mutating call below the project, its cache or the remote (runs of 2 are collapsed),
+				// 3 = the dud process opens the index, a stage file or a cache object for reading
 				var ev []string
 				if f, err := os.Open(logf); err == nil {
 					sc := bufio.NewScanner(f)
@@ -346,6 +347,16 @@ func runLock(o *opts) {
 						}
 						path := filepath.Clean(parts[3])
 						e := ""
+						if parts[2] == "ropen" {
+							// 3 = the project's state is read: the index, a stage file, a cache object
+							// (by the dud process itself)
+							if parts[1] == "ROOT" && (path == filepath.Join(p.Root, ".dud", "index") || (strings.HasPrefix(path, p.Root+"/") && strings.HasSuffix(path, ".yaml") && !strings.HasPrefix(path, p.Root+"/.dud/")) || strings.HasPrefix(path, p.CacheDir+"/")) {
+								if len(ev) == 0 || ev[len(ev)-1] != "3" {
+									ev = append(ev, "3")
+								}
+							}
+							continue
+						}
 						switch {
 						case path == lockPath && parts[2] == "open" && strings.Contains(parts[4], "X"):
 							e = "0"
